@@ -132,6 +132,9 @@ def run_space(binary, space, tier, nshards=None, hang_s=30.0, as_bytes=0, env=No
     e = dict(GOENV)
     e["GOTRACEBACK"] = "all"
     e["GOMAXPROCS"] = "1"  # one case at a time per worker; parallelism comes from the shards
+    # harnesses that need real loopback sockets bind them to 127.<VERIF_LOOP>.<shard+1>.1: two check runs at
+    # the same time (another check, another tier, a mutant run) cannot reach each other's sockets
+    e["VERIF_LOOP"] = str(os.getpid() % 250 + 2)
     if env:
         e.update(env)
 
@@ -230,6 +233,8 @@ def run_space(binary, space, tier, nshards=None, hang_s=30.0, as_bytes=0, env=No
                 w.frm = idx + 1
                 start(w)
                 continue
+            if rc == 3:  # the harness says it cannot go on (rig, scheduler limit, helper process): never a verdict
+                raise MachineryError("worker %s shard %d: harness failure (exit 3):\n%s" % (space, w.shard, open(w.errp).read()[-3000:]))
             if rc == 2 and (idx is None or idx >= (1 << 64) - 2):
                 raise MachineryError("worker %s shard %d exited 2:\n%s" % (space, w.shard, open(w.errp).read()[-3000:]))
             if idx is None or idx >= (1 << 64) - 2:
@@ -433,7 +438,11 @@ def validate_evidence(ev):
     for k in ("property_id", "tier", "seed", "level", "coverage", "wall_s"):
         if k not in ev:
             raise MachineryError("evidence lacks " + k)
-    if all(k in c for k in ("states", "transitions", "traces_validated_against_impl", "samples")):
+    # the vacuity guards protect a GREEN verdict; a run that established violations is not vacuous
+    # (cases that end in a violation are not counted as non-trivial)
+    if ev.get("violations", 0) > 0:
+        pass
+    elif all(k in c for k in ("states", "transitions", "traces_validated_against_impl", "samples")):
         if c["states"] < 1 or c["transitions"] < 1 or not c["samples"]:
             raise MachineryError("evidence: empty state space")
     else:
